@@ -15,7 +15,7 @@ def one(entry):
     d = tempfile.mkdtemp(prefix='selftest_', dir='/var/tmp')
     t0 = time.time()
     try:
-        subprocess.check_call(['cp', '-r', '/repo/.', d])
+        subprocess.check_call(['rsync', '-a', '--exclude', '.git', '/repo/', d + '/'])
         shutil.rmtree(os.path.join(d, '.git'), ignore_errors=True)
         p = os.path.join(d, rel)
         s = open(p).read()
